@@ -37,4 +37,7 @@ tr = {"id": "smoke1", "vars": P["vars"], "progs": [P], "N": 5, "steps": steps}
 import json, time
 t = time.time()
 v, stats, errs = tlc.run_batches([tr], workers=2)
+expected = {(f["n"], f["i"]) for f in v["smoke1"]["fails"]}
+want = {(n, 4) for n in range(6)} | {(3, 9), (4, 9), (5, 9)}
+assert expected == want, (expected, want)
 print(json.dumps(v, indent=None)[:3000]); print(stats, errs, time.time() - t)
